@@ -333,9 +333,12 @@ Proof. intros H. apply norm_index_bound in H. lia. Qed.
 
 Lemma wf_extend st i bpr pre els f : wf st -> i < length (seqs st) -> wf (extend st i bpr pre els f).
 Proof. intros W Hi. apply (extend_spec st i bpr pre els f W Hi). Qed.
+Lemma wf_extend_gen st i bpr pre els f x : wf st -> i < length (seqs st) -> wf (extend_gen st i bpr pre els f x).
+Proof. intros W Hi. apply (extend_gen_spec st i bpr pre els f x W Hi). Qed.
 
 Arguments do_copy : simpl never.
 Arguments extend : simpl never.
+Arguments extend_gen : simpl never.
 Arguments do_append : simpl never.
 Arguments finalize : simpl never.
 Arguments new_buf_for : simpl never.
@@ -510,6 +513,12 @@ Proof.
     unfold new_view. apply wf_add_view; auto.
     + rewrite !pick_length; auto.
     + apply incl_pick; auto.
+  - (* OExtendBad *)
+    destruct (is_live st i) eqn:L; simpl; auto. apply is_live_lt in L.
+    destruct pre.
+    + destruct good; [destruct (match offs _ with [] => _ | _ => _ end); simpl; auto|].
+      simpl. apply wf_extend_gen; auto.
+    + destruct (_ && _); simpl; auto. apply wf_extend_gen; auto.
 Qed.
 
 Theorem wf_exec ops : forall st, wf st -> wf (exec st ops).
